@@ -179,11 +179,11 @@ func checkC18(c *Ctx) {
 	// well-formed programs of the TLC-enumerated families: they must be answered promptly too
 	if sw, ok := cachedGenModule(c, "GenSwitch", map[string]int{"MaxCases": 3}, "switches.ndjson"); ok {
 		for i, ln := range sw["switches.ndjson"] {
-			if c.Quick() && (int64(i)+c.Seed)%3 != 0 {
-				continue
-			}
 			var f swFam
 			if jsonUnmarshal([]byte(ln), &f) != nil {
+				continue
+			}
+			if c.Quick() && (int64(i)+c.Seed)%3 != 0 && f.Ctx != "thenswitch" {
 				continue
 			}
 			p := swProgram(fmt.Sprintf("W%d", i), &f)
